@@ -256,14 +256,13 @@ Definition read_charstr (t : tok) : outcome bytes :=
 (* scan_ascii_str *)
 Definition read_ascii (t : tok) : outcome text := map_o into_ascii (t_syms t).
 
-(* impl_scan_unsigned!: checked_mul(10), then an unchecked `+=` of the digit
-   (panics on overflow with overflow checks on) *)
+(* impl_scan_unsigned!: checked_mul(10), then checked_add of the digit *)
 Definition uint_step (max : N) (s : outcome N) (x : sym) : outcome N :=
   do acc <- s;
   if max <? acc * 10 then Err E_number
   else match x with
        | SChar c => if is_digit c
-                    then (if max <? acc * 10 + (c - 48) then Panic 1 else Ok (acc * 10 + (c - 48)))
+                    then (if max <? acc * 10 + (c - 48) then Err E_number else Ok (acc * 10 + (c - 48)))
                     else Err E_number
        | _ => Err E_number
        end.
@@ -297,7 +296,11 @@ Fixpoint wire_len (n : list bytes) : N :=
   match n with [] => 0 | l :: r => 1 + len l + wire_len r end.
 
 (* chaining with the origin; [origin] is the label list of an absolute name *)
+(* a free standing `@` (skip_at_token at the start of scan_name) *)
+Definition is_at (s : list sym) : bool := match s with [SChar c] => c =? ch_at | _ => false end.
+
 Definition read_name (origin : option (list bytes)) (t : tok) : outcome (list bytes) :=
+  if is_at (t_syms t) then (match origin with Some o => Ok o | None => Err E_entry end) else
   do n <- name_syms (t_syms t) [] 0 [] 0;
   match n with
   | NAbs l => Ok l
